@@ -396,6 +396,8 @@ class FnTaint:
                 for j in deps:
                     if isinstance(j, int) and j < len(args):
                         labs |= self.labels(args[j])
+                    elif isinstance(j, tuple) and j and j[0] == "field":
+                        labs.add(j)
                 changed |= self._add(self.place_of(args[i]), labs, at)
             if n.get("obj") is not None and s["out_fields"] and not n.get("objthis"):
                 # callee stores stream data in fields of the object
@@ -815,6 +817,14 @@ class Engine:
                 "ret_fields": set(), "ret_rem": False, "out_fields": set(),
                 "guards": {}}
 
+    def _plain_struct(self, cls):
+        c = self.F.classes.get(cls)
+        if c is None:
+            return False
+        own = c["name"].rsplit("::", 1)[-1]
+        return not [m for m in c.get("methods", []) if m.get("sn") != own and
+                    not m.get("sn", "").startswith(("~", "operator"))]
+
     def _summarise(self, fn):
         ft = FnTaint(self, fn)
         self.ft[fn.key] = ft
@@ -848,6 +858,8 @@ class Engine:
                     deps.add("rem")
                 elif l[0] == "param" and l[1] != i:
                     deps.add(l[1])
+                elif l[0] == "field" and self._plain_struct(l[1]):
+                    deps.add(l)          # value copied out of a plain event struct filled from the stream
             if deps:
                 s["out"][i] = deps
         # sinks on pseudo labels
